@@ -39,7 +39,7 @@ def run(args):
             except AnalysisError as e:
                 rep, err = None, str(e)
             if err is not None:
-                return "ANALYSIS-ERROR " + err[:300]
+                return "ANALYSIS-ERROR " + (err if os.environ.get("SA_FULLERR") else err[:300])
             new = sorted({(o.rule, o.construct, o.detail[:160]) for o in rep.obs if not o.ok and (o.rule, o.construct) not in known})
             return [f"{r} {c} :: {d}" for r, c, d in new][:6] if new else None
         # one model for all properties (building it is the expensive part); anything reported is re-confirmed with a
